@@ -241,6 +241,9 @@ def run(ctx):
         ('quat_hermitian', lambda a: utils.quat_hermitian(*a), [A.copy()]), ('quat_matmat', lambda a: utils.quat_matmat(*a), [A.copy(), B.copy()]), ('quat_frobenius_norm', lambda a: utils.quat_frobenius_norm(*a), [A.copy()]),
         ('quat_kernel[left]', lambda a: utils.quat_kernel(a[0], 'left'), [Qm(4, 2)]), ('quat_null_left', lambda a: utils.quat_null_left(*a), [Qm(4, 2)]), ('quat_null_right', lambda a: utils.quat_null_right(*a), [Qm(2, 4)]),
         ('compute_real_svd_pinv', lambda a: utils.compute_real_svd_pinv(*a), [rs.rand(4, 3)]),
+        ('compute_real_svd_pinv[rank-deficient]', lambda a: utils.compute_real_svd_pinv(*a), [np.outer(rs.rand(6), rs.rand(5)) + np.outer(rs.rand(6), rs.rand(5))]),
+        ('compute_real_svd_pinv[zero column]', lambda a: utils.compute_real_svd_pinv(*a), [np.hstack([rs.rand(5, 2), np.zeros((5, 1)), rs.rand(5, 1)])]),
+        ('compute_real_svd_pinv[embedding of rank 1]', lambda a: utils.compute_real_svd_pinv(*a), [utils.real_expand(utils.quat_matmat(Qm(3, 1), Qm(1, 4)))]),
         ('quaternion_modulus', lambda a: LU.quaternion_modulus(*a), [A.copy()]), ('quaternion_triu', lambda a: LU.quaternion_triu(a[0], 1), [S.copy()]), ('quaternion_tril', lambda a: LU.quaternion_tril(a[0], -1), [S.copy()]),
         ('quaternion_eigenvalues', lambda a: eigen.quaternion_eigenvalues(*a), [Hm.copy()]), ('quaternion_eigenvectors', lambda a: eigen.quaternion_eigenvectors(*a), [Hm.copy()]),
         ('build_psf_gaussian', lambda a: qslst.build_psf_gaussian(2, 1.5), []), ('build_psf_motion', lambda a: qslst.build_psf_motion(5, 30.0), []),
@@ -250,9 +253,15 @@ def run(ctx):
     if _lu is not None: calls.append(('verify_lu_decomposition', lambda a: LU.verify_lu_decomposition(*a), [S.copy(), _lu[0].copy(), _lu[1].copy(), _lu[2].copy()]))
     if _ev is not None: calls.append(('verify_eigendecomposition', lambda a: eigen.verify_eigendecomposition(*a), [Hm.copy(), np.array(_ev[0]).copy(), np.array(_ev[1]).copy()]))
     documented_inplace = {'UtriangleQsparse': 'documented: "Solution vector components (overwrites input b)"'}
+    def poison(v):
+        # freed heap blocks of every small size are refilled with v: a routine that reads memory it never wrote (np.empty, a where= mask
+        # without out=) then answers differently on the repeat call, although nothing it was handed has changed
+        for k in list(range(1, 65)) + [96, 128, 256, 512, 1024]:
+            blk = [np.full(k, v) for _ in range(10)]
+            del blk
     for name, f, args in calls:
         before = [digest(a) for a in args]
-        np.random.seed(5)
+        np.random.seed(5); poison(1.2345e300)
         try:
             with contextlib.redirect_stdout(io.StringIO()): r1 = digest(f(args))
         except Exception as e:
@@ -261,9 +270,9 @@ def run(ctx):
         changed = [i for i, (x, y) in enumerate(zip(before, after)) if x != y]
         if changed and name not in documented_inplace: viol(f'C14:{name}:mutates-argument', f'{name} modified argument(s) {changed}', {'function': name})
         if not changed:
-            np.random.seed(5)
+            np.random.seed(5); poison(float('nan'))
             with contextlib.redirect_stdout(io.StringIO()): r2 = digest(f(args))
-            if r1 != r2: viol(f'C14:{name}:not-repeatable', f'{name} returns different bits when the call is repeated (same global seed)', {'function': name})
+            if r1 != r2: viol(f'C14:{name}:not-repeatable', f'{name} returns different bits when the call is repeated (same global seed, same untouched arguments; freed heap blocks refilled in between)', {'function': name})
         # the answer depends on the CONTENT of the arguments, not on which array object carries it: compute the answer for doubled copies,
         # call on the originals, double the originals in place, call again on the same objects (a cache keyed by identity would answer stale)
         if not changed and name not in documented_inplace and all(isinstance(a, np.ndarray) for a in args):
